@@ -29,9 +29,12 @@ def notrace():
 
 
 class LogModel:
-    """Records (method, destination) per call, following esp_pylib.logger's contract:
-    print -> stdout unless file= is given; err/warn -> stderr; note/hint/info/debug -> info stream (stderr);
-    die -> SystemExit.  Messages are not rendered."""
+    """Stands in for esp_pylib.logger.log inside the repo's modules.  Records (method, destination) per call following
+    esp_pylib.logger's contract: print -> stdout unless file= is given; err / warn / die -> stderr; note / hint ->
+    the *info stream*, which is stdout unless the package called log.set_info_stream() (read from the real logger
+    object, so dropping that call is visible); die -> SystemExit.
+    Messages are not written anywhere, but concrete message parts are passed through rich's markup parser when markup
+    is enabled (as the real console does), so a message that would raise rich.errors.MarkupError still does."""
 
     def __init__(self):
         self.calls = []
@@ -39,30 +42,64 @@ class LogModel:
     def _rec(self, meth, dest):
         self.calls.append((meth, dest))
 
+    @staticmethod
+    def _info_dest():
+        try:
+            import esp_pylib.logger as _L
+
+            st = getattr(_L.log, "_info_stream", None)
+            return "stdout" if (st is None or st is sys.__stdout__ or st is sys.stdout) else "stderr"
+        except Exception:
+            return "stderr"
+
+    @staticmethod
+    def _markup(args, kw):
+        if kw.get("markup", True) is False:
+            return
+        for a in args:
+            with notrace():
+                # (the type test has to happen outside tracing: under tracing type() of a symbolic str is str)
+                concrete = type(a) is str and "[" in a
+                if concrete:
+                    from rich.markup import render
+
+                    render(a)  # raises rich.errors.MarkupError like the real console would
+
     def print(self, *a, file=None, **k):
-        self._rec("print", "stdout" if file is None or file is sys.stdout else "file")
+        self._markup(a, k)
+        self._rec("print", "stdout" if file is None or file is sys.stdout or file is sys.__stdout__ else "file")
 
     def err(self, *a, **k):
+        self._markup(a, k)
         self._rec("err", "stderr")
 
     def warn(self, *a, **k):
+        self._markup(a, k)
         self._rec("warn", "stderr")
 
     def note(self, *a, **k):
-        self._rec("note", "stderr")
+        self._markup(a, k)
+        self._rec("note", self._info_dest())
 
     def hint(self, *a, **k):
-        self._rec("hint", "stderr")
+        self._markup(a, k)
+        self._rec("hint", self._info_dest())
 
     def info(self, *a, **k):
-        self._rec("info", "stderr")
+        self._rec("info", self._info_dest())
 
     def debug(self, *a, **k):
         self._rec("debug", "stderr")
 
     def die(self, *a, **k):
+        self._markup(a, k)
         self._rec("die", "stderr")
         raise SystemExit(2)
+
+    def set_info_stream(self, stream):
+        import esp_pylib.logger as _L
+
+        _L.log.set_info_stream(stream)
 
     def __getattr__(self, name):
         if name.startswith("__"):
